@@ -523,7 +523,7 @@ fn signature(cfg: &FsCfg, hist: &[Op], clause: &str, obs: &str) -> (String, Vec<
 fn renames_only_durable_files(hist: &[Op]) -> bool {
     let modifies = |o: &Op, p: &str| -> bool {
         match o {
-            Op::Create(_) | Op::CreateNew(_) | Op::OpenTrunc(_) | Op::WriteAt(..) | Op::WriteAtSynced(..) | Op::Append(_) | Op::SetLen(..) | Op::Cursor(_) | Op::AppendCursor(_) | Op::RemoveFile(_) => {
+            Op::Create(_) | Op::CreateNew(_) | Op::OpenTrunc(_) | Op::WriteAt(..) | Op::WriteAtSynced(..) | Op::Append(_) | Op::AppendRing(_) | Op::SetLen(..) | Op::Cursor(_) | Op::AppendCursor(_) | Op::RemoveFile(_) => {
                 o.paths().first() == Some(&p)
             }
             Op::RenameF(a, b) => FILES[*a as usize] == p || FILES[*b as usize] == p,
